@@ -61,6 +61,25 @@ CLAIMED = {
              "received head is judged line by line by TLC (specs/RespHeadTrace.tla).",
         design_ref="DESIGN.md 4 C09, 9",
         technique="TLA+ model checking of the header-acceptance decision table + TLC trace validation of real response heads"),
+    "C05": dict(
+        text="TLC checks specs/Conn.tla (the try/except/finally ladders of sync/gthread/async handle(), handle_request and "
+             "handle_error over parse outcome x application outcome x error-page write outcome) against NoAppCallAfterReject, "
+             "AtMostOneErrorPage, AlwaysClosed, HandleNeverRaises. The C01 stream families concretized (strict oracle), valid "
+             "requests truncated at every offset, mutated requests and random bytes, combined with a client reset at every read "
+             "and a dead socket at every written byte, are served by the real handle() of the three worker families; the same "
+             "worker object then serves a normal connection; wire (strict response reader) and worker state are judged by TLC "
+             "against specs/ConnTrace.tla.",
+        design_ref="DESIGN.md 4 C05, 9",
+        technique="TLA+ model checking of the error-handling ladders + TLC trace validation of hostile connections served by the real handle()"),
+    "C19": dict(
+        text="TLC checks byte accounting (SentEqualsWire) on specs/Response.tla and the access-record sites "
+             "(ExactlyOneRecordPerCompletedApp, AtMostOneRecordPerRejected) on specs/Conn.tla; records captured from the real "
+             "gunicorn.access logger while the real handle() serves completed applications (every producer x framing x worker "
+             "class), requests the server rejects itself, and client-controlled CR/LF/control bytes in target, header values and "
+             "Basic-auth user under every access_log_format atom are judged by TLC (specs/AccessTrace.tla) against the status and "
+             "body length read from the wire.",
+        design_ref="DESIGN.md 4 C19, 9",
+        technique="TLA+ model checking of byte accounting / record sites + TLC trace validation of real access records vs. the wire"),
 }
 
 NOT_YET = {
